@@ -834,14 +834,21 @@ where
 	K: Keychain + 'a,
 {
 	let height = block_fees.height;
-	let lock_height = height + global::coinbase_maturity();
+	let lock_height = height.saturating_add(global::coinbase_maturity());
 	let key_id = block_fees.key_id();
 	let parent_key_id = wallet.parent_key_id();
 
+	// A key id named by the caller is only reused when it refers to a coinbase
+	// candidate that is still unconfirmed (a miner re-requesting the coinbase it
+	// is replacing); any other existing record must never be overwritten.
 	let key_id = match key_id {
-		Some(key_id) => match keys::retrieve_existing_key(wallet, key_id, None) {
-			Ok(k) => k.0,
-			Err(_) => keys::next_available_key(wallet, keychain_mask)?,
+		Some(key_id) => match wallet.get(&key_id, &None) {
+			Ok(ref existing)
+				if existing.is_coinbase && existing.status == OutputStatus::Unconfirmed =>
+			{
+				existing.key_id.clone()
+			}
+			_ => keys::next_available_key(wallet, keychain_mask)?,
 		},
 		None => keys::next_available_key(wallet, keychain_mask)?,
 	};
